@@ -193,7 +193,16 @@ def make_machine(sh, doc_kw, op_kw, flags):
                 m = copy.deepcopy(self.model)
                 try:
                     m.apply(op, path, value)
-                except (A.Refuse, A.Unspecified):
+                except A.Refuse:
+                    continue
+                except A.Unspecified:
+                    # not judged against the model, except: an accepted edit never defines a name twice
+                    st_u, res_u, _s = E.run_op(self.cur, op, path, value)
+                    if st_u == "ok" and isinstance(res_u, str):
+                        dups = [d for d in A.duplicate_names(res_u) if d not in A.duplicate_names(self.cur)]
+                        if dups:
+                            self.history.append((op, path, value, "unspecified"))
+                            return self._record_failure(f"accepted-edit-defines-name-twice|{cls}", {"op": [op, path, value], "names": dups, "out": res_u[:300], "doc": self.cur[:300]})
                     continue
                 return self._do(op, path, value, "ok")
 
